@@ -236,7 +236,7 @@ func scC11(r *Run) {
 }
 
 func init() {
-	register(&PropDef{ID: "C11", Quick: 2000, Thorough: 40000, Profiles: []ProfileDef{
+	register(&PropDef{ID: "C11", Quick: 2000, Thorough: 200000, Profiles: []ProfileDef{
 		{Name: "stub", Share: 6, Sc: scC11},
 		{Name: "ll-muxer", Share: 1, Sc: scC11LL},
 	}})
